@@ -273,19 +273,23 @@ func (w *World) probesFor(f *fieldInfo, objs map[string]*Rec) []interface{} {
 		if !ok {
 			return
 		}
-		s := fmt.Sprintf("%T|%s", v, k)
+		_ = k
+		s := fmt.Sprintf("%T|%v", v, v)
 		if !seen[s] {
 			seen[s] = true
 			out = append(out, v)
 		}
 	}
+	// deterministic order: creation order of the objects, then a stable sort
 	var keys []Key
-	for _, x := range objs {
-		if k, ok := recKey(x, f.Path); ok {
-			keys = append(keys, k)
+	for _, u := range w.m.order {
+		if x, ok := objs[u]; ok {
+			if k, ok := recKey(x, f.Path); ok {
+				keys = append(keys, k)
+			}
 		}
 	}
-	sort.Slice(keys, func(i, j int) bool { return cmpKey(keys[i], keys[j]) < 0 })
+	sort.SliceStable(keys, func(i, j int) bool { return cmpKey(keys[i], keys[j]) < 0 })
 	switch f.Kind {
 	case "int64":
 		if f.IsTime {
@@ -487,4 +491,16 @@ func (w *World) Invariants(classes ...string) {
 			}
 		}
 	}
+}
+
+// evaluable keeps the queries the model can evaluate (e.g. drops a pattern
+// that the path's case constraint turns into an invalid one).
+func (w *World) evaluable(qs []Query) []Query {
+	out := qs[:0:0]
+	for _, q := range qs {
+		if _, ok := w.m.Eval(q); ok {
+			out = append(out, q)
+		}
+	}
+	return out
 }
